@@ -60,6 +60,8 @@ func runC18(c *Ctx) {
 	c18NoService(c, "C18.2")
 	c18Locks(c, "C18.3")
 	c06Arms(c, "C18.4")
+	ruleLookupErrors(c, "C18.5")
+	ruleMutatorAtomic(c, "C18.6")
 }
 
 func c18PanicSources(c *Ctx, rule string) {
